@@ -32,9 +32,16 @@ var hostileRelay = []string{
 }
 
 func genHTMLRelay(t *rapid.T) string {
-	switch rapid.IntRange(0, 4).Draw(t, "relayKind") {
+	switch rapid.IntRange(0, 5).Draw(t, "relayKind") {
 	case 0:
 		return ""
+	case 5:
+		// a string constant of the implementation (template text, placeholder, field name), alone or embedded
+		if d := h.CodeLiterals(); len(d) > 0 {
+			v := d[rapid.IntRange(0, len(d)-1).Draw(t, "relayLiteral")]
+			return rapid.SampledFrom([]string{"", "x", "https://sp.example.com/?next="}).Draw(t, "relayPre") + v + rapid.SampledFrom([]string{"", "y", "&"}).Draw(t, "relayPost")
+		}
+		return "x"
 	case 1:
 		return h.GenText(h.TextOpts{MaxLen: 6}).Draw(t, "relayText")
 	}
@@ -328,6 +335,22 @@ func TestC16_Grid(t *testing.T) {
 			sp.SignRequests = i%2 == 0
 			c := C16Case{SP: sp, Flow: flow, Relay: r, DocKind: "sp-built", URL: "https://idp.example.com:8443/sso?tenant=a%20b&x=1"}
 			if strings.HasPrefix(flow, "BuildAuth") {
+				c.SP.IdPSSO = c.URL
+			} else {
+				c.SP.IdPSLO = c.URL
+			}
+			cases = append(cases, c)
+		}
+	}
+	// every string constant of the implementation as relay state (alone and embedded), flows in rotation
+	flows := []string{"BuildAuthBodyPost", "BuildAuthBodyPostFromDocument", "BuildLogoutBodyPostFromDocument", "BuildLogoutResponseBodyPostFromDocument"}
+	for i, lit := range h.CodeLiterals() {
+		for j, r := range []string{lit, "a" + lit + "b"} {
+			sp := h.BaseSP()
+			sp.Enc = h.KeyCfg{Mode: "tls", Field: h.CertRef{Key: "E1", Window: "wide"}}
+			sp.SignRequests = i%4 == 0
+			c := C16Case{SP: sp, Flow: flows[(i+j)%4], Relay: r, DocKind: "sp-built", URL: "https://idp.example.com/sso"}
+			if strings.HasPrefix(c.Flow, "BuildAuth") {
 				c.SP.IdPSSO = c.URL
 			} else {
 				c.SP.IdPSLO = c.URL
